@@ -218,11 +218,22 @@ func styleDomain() (attrs []vaxis.Style, cols []vaxis.Style, uls []vaxis.Style) 
 	return
 }
 
+// emptyAt >= 0 makes that cell of the next checkSeq call one without a grapheme (the zero Cell, the second half
+// of a wide character): it is encoded like any other cell but prints nothing, so it does not come back
+var emptyAt = -1
+
 func checkSeq(styles []vaxis.Style, withRenderer bool) {
-	cells := make([]vaxis.Cell, len(styles))
+	all := make([]vaxis.Cell, len(styles))
+	var cells []vaxis.Cell // the cells that print something
 	var desc []string
 	for i, st := range styles {
-		cells[i] = vaxis.Cell{Character: vaxis.Character{Grapheme: string(rune('x' + i)), Width: 1}, Style: st}
+		all[i] = vaxis.Cell{Character: vaxis.Character{Grapheme: string(rune('x' + i)), Width: 1}, Style: st}
+		if i == emptyAt {
+			all[i].Character = vaxis.Character{}
+			desc = append(desc, "(no grapheme)"+styleStr(st))
+			continue
+		}
+		cells = append(cells, all[i])
 		desc = append(desc, styleStr(st))
 	}
 	cellsDesc := strings.Join(desc, " ")
@@ -234,9 +245,9 @@ func checkSeq(styles []vaxis.Style, withRenderer bool) {
 		name string
 		s    string
 	}
-	prods := []prod{{"EncodeCells", vaxis.EncodeCells(cells)}, {"StyledString.Encode", (&vaxis.StyledString{Cells: cells}).Encode()}}
+	prods := []prod{{"EncodeCells", vaxis.EncodeCells(all)}, {"StyledString.Encode", (&vaxis.StyledString{Cells: all}).Encode()}}
 	if withRenderer {
-		prods = append(prods, prod{"renderer", encodeRenderer(cells)})
+		prods = append(prods, prod{"renderer", encodeRenderer(all)})
 	}
 	for _, p := range prods {
 		r.Count("encodings", 1)
@@ -537,6 +548,26 @@ func main() {
 					}
 				}
 			}
+			// a cell without a grapheme (the zero Cell, the second half of a wide character) at each position of
+			// a triple over a small style domain: it prints nothing, the cells around it come back unchanged and
+			// the string still ends reset
+			{
+				dom := []vaxis.Style{{}, {Attribute: vaxis.AttrBold}, {Attribute: vaxis.AttrItalic | vaxis.AttrReverse}, cols[31], cols[62], cols[124], uls[3], uls[11]}
+				for _, a := range dom {
+					for _, b := range dom {
+						for _, c := range dom {
+							if !mine() {
+								continue
+							}
+							for e := 0; e < 3; e++ {
+								emptyAt = e
+								checkSeq([]vaxis.Style{a, b, c}, false)
+							}
+							emptyAt = -1
+						}
+					}
+				}
+			}
 			if r.Thorough() {
 				small := []vaxis.Style{}
 				for _, a := range []int{0, 1, 2, 3, 4, 16, 64, 127} {
@@ -568,9 +599,9 @@ func main() {
 	n := r.Get("encodings") + r.Get("param_lists")
 	r.Finish(explore.Coverage{
 		States: -1, Transitions: n, Traces: n, Evaluations: n,
-		Rule: "every ordered pair of styled cells over three style domains (all 128x128 attribute masks; 125x125 triples of colour classes default/0-7/8-15/16-255/RGB for fg, bg, underline colour; 12x12 underline style and colour combinations) plus mixed attribute/colour transitions (thorough: all triples over a 16-style domain), encoded by EncodeCells, StyledString.Encode and the renderer (SGR sequences of a Refresh), and consumed by ParseStyledString, NewStyledString, the embedded terminal (through the real parser) and the reference terminal: the reference terminal must show the cells and end with a default pen, every consumer must return the cells' styles; plus every SGR parameter list of <= n elements over 44 elements (12 plain values, empty, colon forms of 4/38/48/58 with 2-7 fields and truncated forms) fed to the three library consumers for the no-panic clause. distinct = style sequences that passed",
-		Exhaustive: true,
-		Bounds: map[string]any{"max_param_list": r.Pick(3, 4)},
+		Rule:        "every ordered pair of styled cells over three style domains (all 128x128 attribute masks; 125x125 triples of colour classes default/0-7/8-15/16-255/RGB for fg, bg, underline colour; 12x12 underline style and colour combinations) plus mixed attribute/colour transitions (thorough: all triples over a 16-style domain), all triples over an 8-style domain with one cell that has no grapheme, encoded by EncodeCells, StyledString.Encode and the renderer (SGR sequences of a Refresh), and consumed by ParseStyledString, NewStyledString, the embedded terminal (through the real parser) and the reference terminal: the reference terminal must show the cells and end with a default pen, every consumer must return the cells' styles; plus every SGR parameter list of <= n elements over 44 elements (12 plain values, empty, colon forms of 4/38/48/58 with 2-7 fields and truncated forms) fed to the three library consumers for the no-panic clause. distinct = style sequences that passed",
+		Exhaustive:  true,
+		Bounds:      map[string]any{"max_param_list": r.Pick(3, 4)},
 		Assumptions: []string{"hyperlinks are outside the round-trip clause (ParseStyledString and NewStyledString have no OSC 8 handling by design); they are inside the reset-at-end clause"},
 	})
 }
